@@ -609,6 +609,7 @@ static std::string do_setvar(Context& ctx, const std::string& name, const std::s
 /* C API primitives (C15): handles are kept in small tables                  */
 static bloc_context * k_ctx[4];
 static int k_fd[4] = { -1, -1, -1, -1 };
+static int k_efd[4] = { -1, -1, -1, -1 };     /* error stream of the context (trace output goes there) */
 static bloc_symbol * k_sym[4][4];
 static bloc_value * k_val[4];          /* caller-owned */
 static bloc_value * k_lib[4];          /* library-owned pointers kept by the caller */
@@ -661,14 +662,16 @@ static std::string run_kop(const std::vector<std::string>& a)
   {
     int c = I(1);
     if (k_fd[c] < 0) k_fd[c] = memfd_create("kout", 0);
-    k_ctx[c] = bloc_create_context(k_fd[c], k_fd[c]);
+    if (k_efd[c] < 0) k_efd[c] = memfd_create("kerr", 0);
+    k_ctx[c] = bloc_create_context(k_fd[c], k_efd[c]);
     return std::string("{\"r\":\"ok\",\"ptr\":") + (k_ctx[c] ? "1" : "0") + "}";
   }
   if (op == "k.clone")
   {
     int c = I(1), d = I(2);
     if (k_fd[d] < 0) k_fd[d] = memfd_create("kout", 0);
-    k_ctx[d] = bloc_clone_context2(k_ctx[c], k_fd[d], k_fd[d]);
+    if (k_efd[d] < 0) k_efd[d] = memfd_create("kerr", 0);
+    k_ctx[d] = bloc_clone_context2(k_ctx[c], k_fd[d], k_efd[d]);
     for (int s = 0; s < 4; ++s) k_sym[d][s] = nullptr;
     return std::string("{\"r\":\"ok\",\"ptr\":") + (k_ctx[d] ? "1" : "0") + "}";
   }
@@ -787,13 +790,33 @@ static std::string run_kop(const std::vector<std::string>& a)
     std::string o = read_fd(k_fd[c]);
     return "{\"r\":\"ok\",\"out\":\"" + hexenc(o) + "\"}";
   }
+  if (op == "k.trace")
+  {
+    /* k.trace <ctx> <0|1|q>: set (or only query) the trace flag; returns the flag and whether the streams exist */
+    int c = I(1);
+    if (a[2] != "q") bloc_ctx_enable_trace(k_ctx[c], a[2] == "1" ? bloc_true : bloc_false);
+    bloc_bool t = bloc_ctx_trace(k_ctx[c]);
+    FILE * fo = bloc_ctx_out(k_ctx[c]);
+    FILE * fe = bloc_ctx_err(k_ctx[c]);
+    if (fe) fflush(fe);
+    std::string e = read_fd(k_efd[c]);
+    return std::string("{\"r\":\"ok\",\"trace\":") + (t ? "1" : "0") + ",\"out\":" + (fo ? "1" : "0") + ",\"err\":" + (fe ? "1" : "0")
+        + ",\"errlen\":" + std::to_string(e.size()) + "}";
+  }
+  if (op == "k.version")
+  {
+    const char * v = bloc_version();
+    const char * h = bloc_version_header();
+    return std::string("{\"r\":\"ok\",\"version\":") + jstr(v ? v : "(null)") + ",\"header\":" + jstr(h ? h : "(null)")
+        + ",\"compatible\":" + std::to_string(bloc_compatible()) + "}";
+  }
   if (op == "k.errno") return "{\"r\":\"ok\"," + k_err() + "}";
   if (op == "k.end")
   {
     for (int i = 0; i < 4; ++i) { if (k_val[i]) { bloc_free_value(k_val[i]); k_val[i] = nullptr; } k_lib[i] = nullptr; }
     for (int i = 0; i < 4; ++i) { if (k_exp[i]) { bloc_free_expression(k_exp[i]); k_exp[i] = nullptr; } }
     for (int i = 0; i < 4; ++i) { if (k_exe[i]) { bloc_free_executable(k_exe[i]); k_exe[i] = nullptr; } }
-    for (int i = 3; i >= 0; --i) { if (k_ctx[i]) { bloc_free_context(k_ctx[i]); k_ctx[i] = nullptr; } if (k_fd[i] >= 0) { close(k_fd[i]); k_fd[i] = -1; } }
+    for (int i = 3; i >= 0; --i) { if (k_ctx[i]) { bloc_free_context(k_ctx[i]); k_ctx[i] = nullptr; } if (k_fd[i] >= 0) { close(k_fd[i]); k_fd[i] = -1; } if (k_efd[i] >= 0) { close(k_efd[i]); k_efd[i] = -1; } }
     return "{\"r\":\"ok\"}";
   }
   return "{\"r\":\"badop\"}";
@@ -974,8 +997,9 @@ static std::string run_op(const std::vector<std::string>& a)
     if (!c) return "{\"r\":\"noctx\"}";
     return do_setvar(*c, a[2], a[3]);
   }
-  if (op == "unban") { PluginManager::instance().unbanPlugin(hexdec(a[1])); return "{\"r\":\"ok\"}"; }
-  if (op == "clearperm") { PluginManager::instance().clearPermissions(); return "{\"r\":\"ok\"}"; }
+  /* the grants are given and withdrawn the way a host does it: through the C API */
+  if (op == "unban") { bloc_unban_plugin(hexdec(a[1]).c_str()); return "{\"r\":\"ok\"}"; }
+  if (op == "clearperm") { bloc_clear_plugin_permissions(); return "{\"r\":\"ok\"}"; }
   if (op == "vlog")
   {
     /* fetch and reset the event log of the verification modules */
